@@ -30,7 +30,7 @@ type LoopSpec struct {
 	GhostInit  []*Clause
 	Uses       []*Clause
 	Exits      []*Clause // checked in the state after the loop (normal exit and breaks merged)
-	Unroll     int // bounded unrolling with an unwinding assertion instead of an invariant
+	Unroll     int       // bounded unrolling with an unwinding assertion instead of an invariant
 }
 
 type GhostDecl struct {
